@@ -49,7 +49,8 @@ def option_matrix(tier: str, rng) -> typing.List[typing.Tuple[str, dict]]:
                 ('target_c', {'target_endianness': 'little', 'enable_serialization_asserts': True}),
                 ('target_c', {'target_endianness': 'big', 'sanitize': True})]
         cpp = [{'target_endianness': 'any', 'std': 'c++17'},
-               {'target_endianness': 'little', 'enable_serialization_asserts': True, 'std': rng.choice(['c++14', 'c++20', 'c++17-pmr'])}]
+               {'target_endianness': 'little', 'enable_serialization_asserts': True, 'std': 'c++17-pmr'},
+               {'target_endianness': 'big', 'std': rng.choice(['c++14', 'c++20'])}]
         out += [('target_cpp', o) for o in cpp]
         out += [('target_py', {})]
     else:
@@ -223,6 +224,10 @@ def corpus_cases(prep: Prepared, op: str) -> typing.List[Case]:
 def applicable(tgt: proto.Target, c: Case) -> bool:
     """Python has no caller-provided buffer: the capacity strata (and the too_small contract) only exist for C and C++."""
     if tgt.name == 'py' and c.op == 'ser':
+        # NumPy float16 arrays ARE the storage of float16[] fields in Python: finite values beyond +-65504 are outside the
+        # storage range of that target (they become inf when stored, before any serializer runs)
+        if any(t.startswith('f16_overflow') for t in c.tags):
+            return False
         return 'cap_max' in c.tags or 'corpus' in c.tags
     return True
 
@@ -295,12 +300,13 @@ def meta_crosscheck(prep: Prepared) -> typing.Tuple[int, typing.List[dict]]:
 
 def adopt_own_findings(chk: core.Check) -> None:
     """known_findings.json is merged by the lead from known_findings.d/*.json; until then read our own file as well."""
-    p = os.path.join(core.VERIF, 'known_findings.d', '%s.json' % chk.prop)
-    if os.path.exists(p):
-        have = {e['id'] for e in chk.known}
-        for e in json.load(open(p, encoding='utf-8'))['findings']:
-            if e['id'] not in have and chk.prop in e['properties']:
-                chk.known.append(e)
+    for name in ('C01', 'C02'):
+        p = os.path.join(core.VERIF, 'known_findings.d', '%s.json' % name)
+        if os.path.exists(p):
+            have = {e['id'] for e in chk.known}
+            for e in json.load(open(p, encoding='utf-8'))['findings']:
+                if e['id'] not in have and chk.prop in e['properties']:
+                    chk.known.append(e)
 
 
 PY_ASSERT = 'F-PY-DES-ASSERT'
@@ -312,6 +318,98 @@ def is_py_assert_instance(prep: 'Prepared', tgt: proto.Target, c: 'Case', got: s
         return False
     r = prep.model.run([prep.model.des_req(c.tid, c.data, c.prior, verb='qdes')])[0]
     return r.startswith('err assert')
+
+
+PMR_MOVE = 'F-CPP-PMR-UNION-MOVE'
+
+
+def _pmr_moved(db, t, v):
+    """what the generated allocator-extended MOVE constructor leaves behind: unions are value-initialised (variant 0, zero)"""
+    k = t['k']
+    if k == 'farr':
+        return [_pmr_moved(db, t['elem'], e) for e in v]
+    if k != 'ref':
+        return v            # primitives are copied; vectors steal the storage (equal allocators), elements untouched
+    c = db.comp(t['id'])
+    if c['kind'] == 'union':
+        return valgen.default_comp(db, c)
+    return [_pmr_moved(db, f['type'], x) for f, x in zip(c['fields'], v)]
+
+
+def _pmr_built(db, t, v):
+    """value actually held by an object the C++ driver builds element by element (emplace_back) under c++17-pmr"""
+    k = t['k']
+    if k == 'farr':
+        return [_pmr_built(db, t['elem'], e) for e in v]
+    if k == 'varr':
+        out = [_pmr_built(db, t['elem'], e) for e in v]
+        n = len(out)
+        if t['elem']['k'] == 'ref' and n >= 2:
+            j = 1
+            while j * 2 <= n - 1:
+                j *= 2              # last reallocation of a doubling vector happens when element j is appended
+            out = [_pmr_moved(db, t['elem'], e) if i < j else e for i, e in enumerate(out)]
+        return out
+    if k == 'ref':
+        return _pmr_built_comp(db, db.comp(t['id']), v)
+    return v
+
+
+def _pmr_built_comp(db, c, v):
+    if c['kind'] == 'union':
+        if 0 <= v['tag'] < len(c['fields']):
+            return {'tag': v['tag'], 'value': _pmr_built(db, c['fields'][v['tag']]['type'], v['value'])}
+        return v
+    return [_pmr_built(db, f['type'], x) for f, x in zip(c['fields'], v)]
+
+
+def _pmr_decoded(db, t, v):
+    """what the c++17-pmr deserializer leaves: every element of a variable-length array of composites is decoded into a temporary
+    and then moved into the vector with the allocator-extended move constructor"""
+    k = t['k']
+    if k == 'farr':
+        return [_pmr_decoded(db, t['elem'], e) for e in v]
+    if k == 'varr':
+        out = [_pmr_decoded(db, t['elem'], e) for e in v]
+        if t['elem']['k'] == 'ref':
+            out = [_pmr_moved(db, t['elem'], e) for e in out]
+        return out
+    if k == 'ref':
+        c = db.comp(t['id'])
+        if c['kind'] == 'union':
+            if 0 <= v['tag'] < len(c['fields']):
+                return {'tag': v['tag'], 'value': _pmr_decoded(db, c['fields'][v['tag']]['type'], v['value'])}
+            return v
+        return [_pmr_decoded(db, f['type'], x) for f, x in zip(c['fields'], v)]
+    return v
+
+
+def is_pmr_move_des_instance(prep: 'Prepared', tgt: proto.Target, c: 'Case', got: str) -> bool:
+    if tgt.name != 'cpp' or tgt.options.get('std') != 'c++17-pmr' or c.op != 'des' or not c.expected.startswith('ok'):
+        return False
+    comp = prep.db.comp(c.tid)
+    et = c.expected.split()
+    try:
+        v, pos = proto.decode_comp(prep.db, comp, et[2:], 0)
+    except (ValueError, IndexError):
+        return False
+    qv = _pmr_decoded(prep.db, {'k': 'ref', 'id': c.tid}, v)
+    if qv == v:
+        return False
+    pred = ' '.join(['ok', et[1]] + proto.encode_comp(prep.db, comp, qv))
+    return modelmod.same_des(prep.db, c.tid, pred, got)
+
+
+def is_pmr_move_instance(prep: 'Prepared', tgt: proto.Target, c: 'Case', got: str) -> bool:
+    """trigger of F-CPP-PMR-UNION-MOVE (c++17-pmr, serialization of an object holding a variable-length array of >= 2
+    composites that contain a union) AND the quirk-faithful prediction reproduces the implementation's answer"""
+    if tgt.name != 'cpp' or tgt.options.get('std') != 'c++17-pmr' or c.op != 'ser':
+        return False
+    qv = _pmr_built_comp(prep.db, prep.db.comp(c.tid), c.value)
+    if qv == c.value:
+        return False
+    r = prep.model.run([prep.model.ser_req(c.tid, qv, c.cap, c.fill)])[0]
+    return r == got
 
 
 def run(chk: core.Check, direction: str, generators: typing.List[str], trusted: typing.List[str], replay: typing.Optional[str]) -> int:
@@ -385,6 +483,13 @@ def run(chk: core.Check, direction: str, generators: typing.List[str], trusted: 
             if r.startswith('crash'):
                 failures.append({'kind': 'model-crash', 'case': c.to_json(), 'got': r, 'files': spec['files']})
         stats['cases'] += len(cases)
+        # the code-shaped walker (Codec/Walker.v, extracted) must answer every request exactly like the specification
+        wreqs = [('w' + c.req) for c in cases]
+        for c, r in zip(cases, prep.model.run(wreqs)):
+            stats['walker_vs_spec_compared'] = stats.get('walker_vs_spec_compared', 0) + 1
+            if r != c.expected:
+                failures.append({'kind': 'walker-vs-spec', 'case': c.to_json(), 'spec': c.expected, 'walker': r, 'files': spec['files']})
+                break
         masks: typing.Dict[int, str] = {}
 
         def mask_for(i: int) -> typing.Optional[str]:
@@ -456,6 +561,10 @@ def run(chk: core.Check, direction: str, generators: typing.List[str], trusted: 
                     if not c.expected.startswith('ok') or len(c.tags) > 1:
                         distinct.add((c.tid, c.req))
                     continue
+                if chk.is_known(PMR_MOVE) and (is_pmr_move_instance(prep, tgt, c, got) or is_pmr_move_des_instance(prep, tgt, c, got)):
+                    stats['known_finding_instances'] = stats.get('known_finding_instances', 0) + 1
+                    chk.report_known(PMR_MOVE, 'e.g. %s' % c.req[:120])
+                    continue
                 if chk.is_known(PY_ASSERT) and is_py_assert_instance(prep, tgt, c, got):
                     stats['known_finding_instances'] = stats.get('known_finding_instances', 0) + 1
                     chk.report_known(PY_ASSERT, 'e.g. %s' % c.req[:120])
@@ -506,6 +615,7 @@ def run(chk: core.Check, direction: str, generators: typing.List[str], trusted: 
             rep['what'] = {'spec-vs-pydsdl': 'the Coq wire specification disagrees with pydsdl.serialize/deserialize',
                            'spec-vs-pydsdl-meta': 'Spec/Meta.v disagrees with the bit-length numbers pydsdl reports',
                            'build-failure': 'a target driver failed to generate/compile',
+                           'walker-vs-spec': 'the code-shaped walker (Codec/Walker.v) disagrees with the specification (Spec/Wire.v)',
                            'model-crash': 'the extracted specification failed on a request'}.get(f['kind'], f['kind'])
             chk.violation(rep, found_input=False)
             reported = True
